@@ -27,6 +27,30 @@ type Message struct {
 type MessageCache struct {
 	m []Message
 	l sync.Mutex
+	// ended: the subscription this cache belonged to is over and its messages have been taken
+	// for OnUnsubscribe; a publisher that still holds the cache must not append to it.
+	ended bool
+}
+
+// put appends the message unless the cache has ended.
+func (m *MessageCache) put(message Message) bool {
+	m.l.Lock()
+	defer m.l.Unlock()
+	if m.ended {
+		return false
+	}
+	m.m = append(m.m, message)
+	return true
+}
+
+// end takes the messages and closes the cache for publishers.
+func (m *MessageCache) end() (result []Message) {
+	m.l.Lock()
+	defer m.l.Unlock()
+	m.ended = true
+	result = m.m
+	m.m = nil
+	return
 }
 
 func (m *MessageCache) Append(message Message) {
